@@ -52,6 +52,8 @@ func runFile(path string) {
 
 func runPrompt() {
 	scanner := bufio.NewScanner(os.Stdin)
+	// The default 64 KiB token limit would end the session silently on a longer line.
+	scanner.Buffer(make([]byte, 0, 64*1024), 1<<30)
 	for {
 		fmt.Printf(">> ")
 		scanned := scanner.Scan()
